@@ -666,6 +666,10 @@ func c19FreshDecodeTargets(w *World, r *Report) {
 						}
 					})
 				}
+				// one generic generator literal (`return new(Req)`) stands for every instantiation of its constructor
+				if na := len(requestTypeArgs(w)); na > 0 && gens > 0 {
+					gens += na - 1
+				}
 				ok2, why = gens >= 8 && good, fmt.Sprintf("%d model generators, all returning a fresh allocation=%v", gens, good)
 			}
 			r.Check(ok2, "C19-R7", cons, c.Pos(), why, "the request is decoded into an object that outlives the request ("+why+"): fields the body omits keep the values of an earlier request, e.g. a body without request_type is executed as the previous request's type")
